@@ -33,7 +33,8 @@ TRUSTED = [
 ASSUMPTIONS = [
     'values are None, small ints and lists of ints; Parameter types Parameter / Integer / Selector(list-declared objects); '
     'subclasses add new names only (an inherited Parameter is overridden only by class-level assignment)',
-    'ListSelector, names-declared Selectors, watchers, references, disable_instance_params, readonly, set-before-super().__init__ '
+    'ListSelector, names-declared Selectors, watchers, references (except: one constructor keyword per instance may be a '
+    'reference without a value, which assigns nothing), disable_instance_params, readonly, set-before-super().__init__ '
     'and assignment of `.default`/`.per_instance`/`.instantiate` on a Parameter are outside the model',
 ]
 RULE = ('directed prefix (every operation kind, order dependence of the first `obj.param.x`, copy-on-write, the constructor '
@@ -487,9 +488,13 @@ def _random_case(rng, leaky):
         if r < 0.22 or not attempts:
             k = rng.randrange(len(classes))
             kw = []
+            pend = False
             for x, d in classes[k][1].items():
-                if d.get('refs') and rng.random() < 0.5:
+                # at most one pending reference per instance: dropping one link re-resolves the others
+                # (param's reference machinery, C08), which is not part of this model
+                if d.get('refs') and not pend and rng.random() < 0.5:
                     kw.append((x, 'pending'))
+                    pend = True
                 elif rng.random() < 0.3:
                     kw.append((x, _value(rng, d, safe=not leaky)))
             ops.append(mkInst(k, kw))
